@@ -431,8 +431,14 @@ func (p *postHandshake) processPostHandshakeMessages(ctx context.Context, conn C
 
 			return err
 		}
+		before := p.state.HandshakeRecvSequence
 		if err := p.handlePostHandshakeMessage(ctx, conn, message, item.Epoch); err != nil {
 			return err
+		}
+		if p.state.HandshakeRecvSequence == before {
+			// The message was refused with a fatal alert and not consumed: stop,
+			// otherwise the same message is pulled and answered forever.
+			return dtlserrors.ErrUnexpectedPostHandshakeMessage
 		}
 	}
 
